@@ -3,6 +3,7 @@ import os, json
 import vlib, fam_consts
 from engine import Run, replay_event
 from fam_tower import TOWER, key_of, class_of, confirm_factory, tower_machine
+import fam_tower
 
 RULE = ("cases = TLC-enumerated component-shape families for Fq2/Fq6/Fq12 (zero/one/minus-one/boundary/pseudo-random components, "
         "subfield, one-hot and sparse shapes) x every operation x alias pattern, all Frobenius powers 0..13, sparse multiplicands with "
@@ -46,9 +47,13 @@ def run(tier):
     # Fq2::compare inherits the Montgomery-residue order of Fq::compare: that rule is C02's known finding, not gated here
     fails = [(e, l) for e, l in fails if not (e.get("op") == "ext.cmp" and l == ["cmp.integer-order"])]
     run.classify(fails, key_of, confirm_factory(run))
+    # the cyclotomic map executed on exponents modulo q^12 - 1 at full size: (q^6 - 1)(q^2 + 1) for every non-zero input
+    ex_fails, ex_skipped = fam_tower.exp_events(fam_tower.exp_machine(run), [("map_to_cyclotomic", 0)])
+    if ex_skipped: run.extra["exponent_machine_not_applicable"] = ex_skipped
+    run.classify(ex_fails, fam_tower.exp_key, None)
     run.assumptions += ["Tower products are evaluated by a Java accelerator checked against the ExtField definitions (MC_Tower)",
                         "Frobenius maps via generator images, checked against x^(q^k) by MC_Tower on samples",
-                        "no exhaustive toy-parameter instance of the coded formulas yet (planned TowerAlg)"]
+                        "TowerMachine executes the source-extracted functions on the toy tower over F_19 (sampled operands; Fq2 exhaustively in the thorough tier), not at 381 bits"]
     return run.finish(RULE)
 
 def replay(path):
